@@ -79,7 +79,14 @@ func (c *Ctx) fieldWrites(field *types.Var) []writeSite {
 			break
 		}
 		if w.kind == "" && w.rhs != nil {
-			w.kind = rhsKind(u.Pkg.TypesInfo, w.rhs, field)
+			rhs := w.rhs
+			// a value routed through a local with a single definition is classified by that definition
+			if id, ok := ast.Unparen(rhs).(*ast.Ident); ok && u.EnclDecl != nil {
+				if def := singleLocalDef(u.Pkg.TypesInfo, u.EnclDecl, u.Pkg.TypesInfo.ObjectOf(id)); def != nil {
+					rhs = def
+				}
+			}
+			w.kind = rhsKind(u.Pkg.TypesInfo, rhs, field)
 		}
 		if w.elem {
 			w.kind = "elem:" + w.kind
@@ -461,4 +468,58 @@ func (c *Ctx) onlyOnSuccess(f *Flow, call Match, target Match, key, rule, where 
 	}
 	w := f.search(searchSpec{avoidEdges: okEdges, target: target})
 	return c.Check(w == nil, key, rule, where, f.describe(w))
+}
+
+// singleLocalDef returns the defining expression of a local variable that is defined exactly once (x := e or var x = e,
+// one variable per right-hand side) and never assigned, inc/dec'ed or address-taken afterwards; nil otherwise.
+func singleLocalDef(info *types.Info, decl *ast.FuncDecl, obj types.Object) ast.Expr {
+	v, ok := obj.(*types.Var)
+	if !ok || v.IsField() || decl.Body == nil || obj.Pos() < decl.Body.Pos() || obj.Pos() > decl.Body.End() {
+		return nil
+	}
+	var def ast.Expr
+	writes := 0
+	ast.Inspect(decl.Body, func(n ast.Node) bool {
+		switch x := n.(type) {
+		case *ast.AssignStmt:
+			for i, l := range x.Lhs {
+				id, ok := l.(*ast.Ident)
+				if !ok || info.ObjectOf(id) != obj {
+					continue
+				}
+				writes++
+				if x.Tok == token.DEFINE && len(x.Lhs) == len(x.Rhs) {
+					def = x.Rhs[i]
+				}
+			}
+		case *ast.ValueSpec:
+			for i, id := range x.Names {
+				if info.ObjectOf(id) == obj {
+					writes++
+					if len(x.Values) == len(x.Names) {
+						def = x.Values[i]
+					}
+				}
+			}
+		case *ast.IncDecStmt:
+			if id, ok := x.X.(*ast.Ident); ok && info.ObjectOf(id) == obj {
+				writes++
+			}
+		case *ast.UnaryExpr:
+			if id, ok := x.X.(*ast.Ident); ok && x.Op == token.AND && info.ObjectOf(id) == obj {
+				writes++
+			}
+		case *ast.RangeStmt:
+			for _, e := range []ast.Expr{x.Key, x.Value} {
+				if id, ok := e.(*ast.Ident); ok && info.ObjectOf(id) == obj {
+					writes += 2
+				}
+			}
+		}
+		return true
+	})
+	if writes == 1 && def != nil {
+		return def
+	}
+	return nil
 }
